@@ -1,7 +1,8 @@
 """C09 — any load / modify / save history leaves correct files and a live process.
 
 Histories over {load(p, mmap), get_fdata, uncache, edit header field, set affine (image API), edit the header affine fields, set_data_dtype, save(p),
-to_bytes} with p in {a.nii, a.nii.gz, b.nii, a.img(+a.hdr), a.mgh, a.mgz}.  Every history runs in a CHILD
+to_bytes} with p in {a.nii, a.nii.gz, b.nii, a.img(+a.hdr), a.mgh, a.mgz, s.img(+.hdr,.mat: SPM2 Analyze), n.nii (NIfTI-2),
+c.img.gz(+c.hdr.gz), a.nii.bz2, b.nii.zst}.  Every history runs in a CHILD
 process (batched; a dying child is an observable, not an infrastructure failure).  The observable line is compared
 string-equal with the Lean model (Model/C09.lean via Driver/C09.lean); the oracle is computed in the child from the
 real objects only (pre-save snapshot of the live image versus a fresh `mmap=False` load of the written file).
@@ -40,11 +41,26 @@ THEOREMS = [
     'Nb.C09.guard_is_tight',
     'Nb.C09.save_ignores_header_affine_edit',
     'Nb.C09.generated_tables_agree',
+    'Nb.C09.update_header_affine_close',
+    'Nb.C09.best_affine_precedence',
+    'Nb.C09.save_ignores_header_affine_edits',
+    'Nb.C09.header_edit_kept_when_affine_agrees',
+    'Nb.C09.save_class_by_extension',
+    'Nb.C09.outCls_valid',
+    'Nb.C09.step_clsWF',
+    'Nb.C09.self_save_keeps_class',
+    'Nb.C09.run_clsWF',
+    'Nb.C09.current_stale_fdata_alias_f32_counterexample',
+    'Nb.C09.generated_outCls_agree',
 ]
 ASSUMPTIONS = [
     'hand-written Lean model of save()/to_filename/to_file_map/ArrayProxy/get_fdata cache over an ABSTRACT file '
-    'system (Model/C09.lean); tied to the code by the differential run of every generated history (per-op tokens, '
-    'final live image, final decode of all six paths) in this run',
+    'system (Model/C09.lean); tied to the code by the differential run of every generated history (per-op tokens incl. '
+    'class, byte order, scaling and sform/qform codes+affines of every written file, final live image with its own '
+    'header transform fields, final decode of all eleven paths) in this run',
+    'np.allclose on affines is identity of affine ids in the executable model (the test affines are pairwise far '
+    'apart); the decision rule of update_header is proved for any reflexive closeness predicate',
+    'load returns the class that wrote the file (header sniffing, .mat side file of SPM images): compared, not proved',
     'np.memmap(mode="c") / kernel page cache: modelled as a REFERENCE to the current content of the file; reading it '
     'after truncation or after the file was re-laid-out (other dtype/scaling) = outcome BAD (SIGBUS, zeros, garbage '
     'or OSError are not distinguished: all are violations) — partial: the OS behaviour itself is not verified',
@@ -55,15 +71,47 @@ ASSUMPTIONS = [
     'OPEN finding (guard of history_safe_partial): after a save onto the live image\'s own source path that changes '
     'the on-disk layout (dtype/scaling) the live image reads through a stale proxy / stale float64 memmap cache',
 ]
-RULE = ('streams: hdraffine (header sform/qform edited directly or via the image API, then first/second save to every '
-        'same- and other-flavour target); selfsave (the repaired defect: load p, [ops], save p ... for every path x mmap x dtype x small/big '
+RULE = ('streams: hdraffine (header sform/qform edited directly — to another affine or to the image\'s own affine with a '
+        'different code — or via the image API, then first/second save to same- and other-flavour targets, for NIfTI-1/2 '
+        'single and pair, MGH, SPM2); exh3x (suffixes over the ops on the SPM2 pair, NIfTI-2, compressed pair, .bz2, .zst '
+        'names incl. get_fdata(float32)); selfsave (the repaired defect: load p, [ops], save p ... for every path x mmap x dtype x small/big '
         'shape); spelling (self-overwrite where load and save name the same file differently: absolute, relative, ./, '
         'sub/../, symlink, hard link, pair header name — all pairs of spellings, every path); exh3/exh4/exh5: first op load(p, mmap) then ALL suffixes over the op alphabet (27 ops: 12 loads, 6 '
         'saves, 3 set_data_dtype, get_fdata, uncache, edit, set affine, header-affine edit, to_bytes; exh5 / quick exh4 over a 16-op '
         'sub-alphabet); random: length 4-12, random initial dtypes, absent files, 10% big (multi-page) arrays. '
         'A case is non-trivial when it contains a load and a save; distinct by (init, ops, big).')
 
-PATHS = ['a.nii', 'a.nii.gz', 'b.nii', 'a.img', 'a.mgh', 'a.mgz']
+PATHS = ['a.nii', 'a.nii.gz', 'b.nii', 'a.img', 'a.mgh', 'a.mgz', 's.img', 'n.nii', 'c.img.gz', 'a.nii.bz2', 'b.nii.zst']
+NP = len(PATHS)
+PCH = '0123456789a'
+IMG_PATHS = (3, 6, 8)          # two-/three-file names
+MGH_PATHS = (4, 5)
+COMPRESSED = (1, 5, 8, 9, 10)
+HDR_NAME = {3: 'a.hdr', 6: 's.hdr', 8: 'c.hdr.gz'}
+INIT_CLS = {3: 'Nifti1Pair', 4: 'MGHImage', 5: 'MGHImage', 6: 'Spm2AnalyzeImage', 7: 'Nifti2Image', 8: 'Nifti1Pair'}
+OTHER_A, OTHER_B = 12, 13      # affine ids that no file starts with (even / odd: the two kinds of header edit)
+
+
+def pidx(ch):
+    return PCH.index(ch)
+
+
+def side_names(p):
+    """all file names that belong to path p"""
+    if p not in IMG_PATHS:
+        return [PATHS[p]]
+    stem, comp = PATHS[p].split('.img')
+    return [stem + e + comp for e in ('.img', '.hdr', '.mat')]
+
+
+def parse_init(tok):
+    """'[>]dt[s]' -> (dt, big-endian, scaled)"""
+    be = tok.startswith('>')
+    t = tok[1:] if be else tok
+    sc = t.endswith('s')
+    return (t[:-1] if sc else t), be, sc
+
+
 DTS = ['u8', 'i16', 'i32', 'f32', 'f64']
 MGH_DTS = ['u8', 'i16', 'i32', 'f32']
 NP_DT = {'u8': 'uint8', 'i16': 'int16', 'i32': 'int32', 'f32': 'float32', 'f64': 'float64'}
@@ -76,21 +124,23 @@ PENDING_FINDINGS = [
      'what': 'after set_data_dtype + save onto the image\'s own source file the live image reads the re-laid-out '
              'file through its old ArrayProxy spec (wrong data or OSError); the written file itself is correct: '
              'load a.nii(int16); set_data_dtype(int32); save a.nii; get_fdata()',
-     'input': {'init': ['i16'] * 6, 'ops': ['L00', 'Di32', 'S0', 'F'], 'big': False}},
+     'input': {'init': ['i16'] * NP, 'ops': ['L00', 'Di32', 'S0', 'F'], 'big': False}},
     {'property': 'C09', 'signature': SIG_FDATA, 'status': 'open',
      'what': 'cached get_fdata() of a float64 memory-mapped image IS the memmap of the source file; after '
              'set_data_dtype + save onto that file it extends past EOF (SIGBUS / garbage): load a.nii(float64, mmap); '
              'get_fdata(); set_data_dtype(int16); save a.nii; get_fdata()',
-     'input': {'init': ['f64', 'i16', 'i16', 'i16', 'i16', 'i16'], 'ops': ['L01', 'F', 'Di16', 'S0', 'F'],
+     'input': {'init': ['f64'] + ['i16'] * (NP - 1), 'ops': ['L01', 'F', 'Di16', 'S0', 'F'],
                'big': True}},
 ]
 
 # ------------------------------------------------------------------------------------------- generated tables
 
 def regen():
-    """Generated/C09.lean: for the six path names the class `save()`/`load()` pick by extension and whether the name
+    """Generated/C09.lean: for the eleven path names the class `save()`/`load()` pick by extension and whether the name
     is a compressed stream (never memory mapped); the dtypes an MGH header accepts; whether the two `to_file_map`
-    bodies still copy a memmap before the first `get_prepare_fileobj` (statement order read from the AST)."""
+    bodies still copy a memmap before the first `get_prepare_fileobj` (statement order read from the AST);
+    `all_image_classes` with the extension families of every `valid_exts`; the special cases of `nibabel.save`
+    (`type(img) == X and lext in (...)` -> `Y.from_image(img)`) read from its AST; the classes with `to_bytes`."""
     import ast
     import inspect
     import textwrap
@@ -98,11 +148,13 @@ def regen():
     import numpy as np
     import common
     import nibabel as nib
+    import nibabel.loadsave
     from nibabel.filename_parser import splitext_addext
     from nibabel.imageclasses import all_image_classes
     from nibabel.loadsave import _compressed_suffixes
     from nibabel.openers import ImageOpener
-    code = {'Nifti1Image': 0, 'Nifti1Pair': 1, 'MGHImage': 2}
+    code = {'Nifti1Image': 0, 'Nifti1Pair': 1, 'MGHImage': 2, 'Spm2AnalyzeImage': 3, 'Nifti2Image': 4, 'Nifti2Pair': 5}
+    fam = {'.nii': 0, '.img': 1, '.hdr': 1, '.mgh': 2, '.mgz': 2}
     rows = []
     for name in PATHS:
         froot, ext, trailing = splitext_addext(name, _compressed_suffixes)
@@ -131,11 +183,53 @@ def regen():
             if isinstance(node, ast.Call) and getattr(node.func, 'attr', None) == 'get_prepare_fileobj':
                 first_open = node.lineno if first_open is None else min(first_open, node.lineno)
         return first_copy is not None and first_open is not None and first_copy < first_open
+
+    class_table = []
+    for k in all_image_classes:
+        class_table.append((code.get(k.__name__, 9), sorted({fam[e] for e in k.valid_exts if e in fam})))
+
+    def save_special():
+        """`if type(img) == X and lext in ('.img', '.hdr'): converted = Y.from_image(img)` chains of nibabel.save"""
+        tree = ast.parse(textwrap.dedent(inspect.getsource(nibabel.loadsave.save)))
+        found = []
+        for node in ast.walk(tree):
+            if not isinstance(node, ast.If):
+                continue
+            t = node.test
+            if not (isinstance(t, ast.BoolOp) and isinstance(t.op, ast.And) and len(t.values) == 2):
+                continue
+            a, b = t.values
+            if not (isinstance(a, ast.Compare) and isinstance(a.left, ast.Call) and
+                    getattr(a.left.func, 'id', None) == 'type' and
+                    [getattr(x, 'id', None) for x in a.left.args] == ['img'] and len(a.ops) == 1 and
+                    isinstance(a.ops[0], ast.Eq) and isinstance(a.comparators[0], ast.Name)):
+                continue
+            exts = []
+            if isinstance(b, ast.Compare) and getattr(b.left, 'id', None) == 'lext' and len(b.ops) == 1:
+                c = b.comparators[0]
+                if isinstance(b.ops[0], ast.In) and isinstance(c, (ast.Tuple, ast.List)):
+                    exts = [getattr(e, 'value', None) for e in c.elts]
+                elif isinstance(b.ops[0], ast.Eq) and isinstance(c, ast.Constant):
+                    exts = [c.value]
+            st = node.body[0] if len(node.body) == 1 else None
+            if not (isinstance(st, ast.Assign) and isinstance(st.value, ast.Call) and
+                    isinstance(st.value.func, ast.Attribute) and st.value.func.attr == 'from_image' and
+                    isinstance(st.value.func.value, ast.Name) and
+                    [getattr(x, 'id', None) for x in st.value.args] == ['img'] and not st.value.keywords and
+                    [getattr(x, 'id', None) for x in st.targets] == ['converted']):
+                continue
+            for e in exts:
+                row = (node.lineno, code.get(a.comparators[0].id, 9), fam.get(e, 9), code.get(st.value.func.value.id, 9))
+                if row[1:] not in [r[1:] for r in found]:
+                    found.append(row)
+        return [r[1:] for r in sorted(found)]
+    has_to_bytes = sorted(c for n, c in code.items() if hasattr(getattr(nib, n), 'to_bytes'))
     b = lambda x: 'true' if x else 'false'
     src = ['/-! GENERATED by harness/props/c09.py `regen()` from the nibabel working tree — do not edit. -/',
            'namespace Nb.C09.Gen', '',
-           '/-- per path (a.nii a.nii.gz b.nii a.img a.mgh a.mgz): (class code 0 Nifti1Image / 1 Nifti1Pair / 2 MGHImage',
-           '    / 9 other chosen by extension, name is a compressed stream) -/',
+           '/-- per path (' + ' '.join(PATHS) + '): (class code of the',
+           '    first class of `all_image_classes` whose `valid_exts` has the extension — 0 Nifti1Image / 1 Nifti1Pair /',
+           '    2 MGHImage / 3 Spm2AnalyzeImage / 4 Nifti2Image / 5 Nifti2Pair / 9 other —, name is a compressed stream) -/',
            'def pathTable : List (Nat × Bool) := [' + ', '.join(f'({c}, {b(k)})' for c, k in rows) + ']', '',
            '/-- indices into [u8, i16, i32, f32, f64] of the dtypes `MGHHeader.set_data_dtype` accepts -/',
            'def mghDtypes : List Nat := [' + ', '.join(map(str, mgh)) + ']', '',
@@ -143,9 +237,19 @@ def regen():
            '    `get_prepare_fileobj` (source order) -/',
            f'def analyzeCopiesBeforeOpen : Bool := {b(copies_before_open(nib.AnalyzeImage.to_file_map))}',
            f'def mghCopiesBeforeOpen : Bool := {b(copies_before_open(nib.MGHImage.to_file_map))}', '',
+           '/-- `all_image_classes` in order: (class code, extension families 0 .nii / 1 .img,.hdr / 2 .mgh,.mgz in',
+           '    `valid_exts`) -/',
+           'def classTable : List (Nat × List Nat) := [' +
+           ', '.join('(%d, [%s])' % (c, ', '.join(map(str, e))) for c, e in class_table) + ']', '',
+           '/-- the special cases of `nibabel.save` read from its AST: (type(img) code, extension family, class',
+           '    converted to by `from_image`) -/',
+           'def saveSpecial : List (Nat × Nat × Nat) := [' + ', '.join('(%d, %d, %d)' % r for r in save_special()) + ']', '',
+           '/-- classes with a `to_bytes` method -/',
+           'def hasToBytes : List Nat := [' + ', '.join(map(str, has_to_bytes)) + ']', '',
            'end Nb.C09.Gen', '']
     common.write_if_changed(os.path.join(common.LEAN, 'NibabelModel', 'Generated', 'C09.lean'), '\n'.join(src))
-    return ['Generated.C09.pathTable', 'Generated.C09.mghDtypes', 'Generated.C09.copiesBeforeOpen']
+    return ['Generated.C09.pathTable', 'Generated.C09.mghDtypes', 'Generated.C09.copiesBeforeOpen',
+            'Generated.C09.classTable', 'Generated.C09.saveSpecial', 'Generated.C09.hasToBytes']
 
 
 # ------------------------------------------------------------------------------------------- cases
@@ -159,7 +263,8 @@ def _key(d):
 
 
 def mk_case(init, ops, big=False, stream='main'):
-    d = {'init': list(init), 'ops': list(ops), 'big': bool(big)}
+    init = list(init) + ['i16'] * (NP - len(init))     # inputs stored before the path alphabet grew name six files
+    d = {'init': init, 'ops': list(ops), 'big': bool(big)}
     line = 'C09 hist 0 ' + ','.join(init) + ' ' + (','.join(ops) if ops else '-')
     nontriv = any(o[0] == 'L' for o in ops) and any(o[0] == 'S' for o in ops)
     k = _key(d)
@@ -172,69 +277,99 @@ def case_from_data(d):
     return mk_case(d['init'], d['ops'], d.get('big', False), d.get('stream', 'corpus'))
 
 
+HA, HB = 'H%d' % OTHER_A, 'H%d' % OTHER_B      # header edit: sform (code 3) / sform cleared + qform
+AA, AB = 'A%d' % OTHER_A, 'A%d' % OTHER_B
 FULL_ALPHA = ([f'L{p}{m}' for p in range(6) for m in (1, 0)] + [f'S{p}' for p in range(6)] +
-              ['Di16', 'Df32', 'Df64', 'F', 'U', 'E1', 'A6', 'H7', 'B'])
-SMALL_ALPHA = [f'L{p}1' for p in range(6)] + [f'S{p}' for p in range(6)] + ['Df32', 'F', 'U', 'H7']
-INIT_MIXED = ['i16', 'f32', 'f64', 'u8', 'i32', 'f32']
-INIT_I16 = ['i16'] * 6
+              ['Di16', 'Df32', 'Df64', 'F', 'U', 'E1', AA, HB, 'B'])
+SMALL_ALPHA = [f'L{p}1' for p in (0, 3, 4, 5)] + [f'S{p}' for p in range(6)] + ['Df32', 'F', 'U', HB]
+# the names added to the alphabet: SPM2 pair, NIfTI-2, compressed pair, .bz2, .zst (+ a.img for Nifti2Pair, a.nii)
+X_ALPHA = ([f'L{c}1' for c in '36789a'] + [f'S{c}' for c in '0346789a'] +
+           ['Di16', 'Df64', 'F', 'F4', 'U', HA, AB, 'E1', 'B'])
+INIT_MIXED = ['i16', 'f32', 'f64', 'u8', 'i32', 'f32', 'f64', 'f32', 'i16', 'f64', 'i32']
+INIT_I16 = ['i16'] * NP
+INIT_X = ['f32', 'i16', 'i16', 'f64', 'f32', 'i16', 'f32', 'f64', 'f32', 'i16', 'f64']
+
+
+def _dts_for(p):
+    return MGH_DTS if p in MGH_PATHS else DTS
 
 
 def selfsave_cases():
     out = []
-    hist = [['L', 'S'], ['L', 'S', 'S'], ['L', 'F', 'S'], ['L', 'S', 'F'], ['L', 'S', 'L', 'S'], ['L', 'A7', 'S', 'F'],
-            ['L', 'E2', 'S', 'U', 'F'], ['L', 'Sq', 'S', 'Sq'], ['L', 'F', 'S', 'U', 'F', 'S'], ['L', 'B', 'S']]
-    for p in range(6):
-        for m in (1, 0):
-            for dt in (MGH_DTS if p >= 4 else DTS):
-                for big in ((False, True) if m == 1 else (False,)):
-                    init = list(INIT_I16)
-                    init[p] = dt
-                    for h in hist:
-                        ops = []
-                        for o in h:
-                            if o == 'L':
-                                ops.append(f'L{p}{m}')
-                            elif o == 'S':
-                                ops.append(f'S{p}')
-                            elif o == 'Sq':
-                                ops.append(f'S{(p + 2) % 6}')
-                            else:
-                                ops.append(o)
-                        out.append(mk_case(init, ops, big, 'selfsave'))
+    hist = [['L', 'S'], ['L', 'S', 'S'], ['L', 'F', 'S'], ['L', 'S', 'F'], ['L', 'S', 'L', 'S'], ['L', AB, 'S', 'F'],
+            ['L', 'E2', 'S', 'U', 'F'], ['L', 'Sq', 'S', 'Sq'], ['L', 'F', 'S', 'U', 'F', 'S'], ['L', 'B', 'S'],
+            ['L', 'F4', 'S', 'F4'], ['L', 'F4', 'Sq', 'F', 'S', 'F4', 'F']]
+    for p in range(NP):
+        variants = [(dt, m) for m in (1, 2, 0) for dt in _dts_for(p)]
+        if p not in MGH_PATHS:
+            # big-endian files and files stored with scale factors
+            variants += [(dt, m) for m in (1, 0) for dt in ('>i16', '>f64', '>f32', 'i16s', '>u8s')]
+        for dt, m in variants:
+            for big in ((False, True) if (m == 1 and p not in COMPRESSED and dt in DTS) else (False,)):
+                init = list(INIT_I16)
+                init[p] = dt
+                for h in (hist if m != 2 else hist[:4] + hist[10:]):
+                    ops = []
+                    for o in h:
+                        if o == 'L':
+                            ops.append(f'L{PCH[p]}{m}')
+                        elif o == 'S':
+                            ops.append(f'S{PCH[p]}')
+                        elif o == 'Sq':
+                            ops.append(f'S{PCH[(p + 2) % NP]}')
+                        else:
+                            ops.append(o)
+                    out.append(mk_case(init, ops, big, 'selfsave'))
     return out
 
 
 def spelling_cases():
     """self-overwrite with the source and the target named by DIFFERENT spellings of the same file
-    (0 absolute, 1 cwd-relative, 2 ./name, 3 sub/../name, 4 symbolic link, 5 hard link, 6 header name of the pair)"""
+    (0 absolute, 1 cwd-relative, 2 ./name, 3 sub/../name, 4 symbolic link, 5 hard link, 6 header name of the pair)
+    or through different ENTRY POINTS (7 img.to_filename(name), 8 img.to_file_map() on the image's own file map)"""
     out = []
-    for p in range(6):
-        sp = list(range(6)) + ([6] if p == 3 else [])
-        for ls in sp:
-            for ss in sp:
-                for big in ((False, True) if p in (0, 3, 4) else (False,)):
+    for p in range(NP):
+        lsp = list(range(6)) + ([6] if p in IMG_PATHS else [])
+        ssp = lsp + [7, 8]
+        full = p in (0, 3, 6)
+        for ls in lsp:
+            for ss in ssp:
+                if not full and not (ls == 0 or ss == 0 or ls == ss or (ls, ss) in ((4, 5), (6, 1), (1, 6), (3, 8))):
+                    continue
+                for big in ((False, True) if full and p not in COMPRESSED else (False,)):
                     init = list(INIT_I16)
-                    init[p] = 'f32' if (ls + ss) % 2 else 'i16'
-                    q = (p + 2) % 6
-                    out.append(mk_case(init, [f'L{p}1@{ls}', f'S{p}@{ss}', 'F'], big, 'spelling'))
-                    out.append(mk_case(init, [f'L{p}1@{ls}', f'S{q}@{ss}', f'S{p}@{ss}', 'A6', f'S{p}@{ls}'], big,
+                    init[p] = 'f32' if (ls + ss) % 2 and p not in MGH_PATHS else ('f64' if (ls + ss) % 3 == 0 and
+                                                                                  p not in MGH_PATHS else 'i16')
+                    c, q = PCH[p], PCH[(p + 2) % NP]
+                    out.append(mk_case(init, [f'L{c}1@{ls}', 'F', f'S{c}@{ss}', 'F'], big, 'spelling'))
+                    out.append(mk_case(init, [f'L{c}1@{ls}', f'S{q}@{ss}', f'S{c}@{ss}', AA, f'S{c}@{ls}'], big,
                                        'spelling'))
     return out
 
 
 def hdraffine_cases():
-    """header affine fields edited directly (H: header only, img.affine unchanged; sform, or sform cleared + qform)
+    """header affine fields edited directly (H: header only, img.affine unchanged; sform with another code, or sform
+    cleared + qform — to ANOTHER affine, or to the image's OWN affine so that update_header keeps the edited header)
     or through the image API (A: img.affine changes), then a FIRST save to every target (same and other flavour /
-    format) and a second save to every target"""
+    format) and a second save"""
     out = []
-    for p in range(6):
-        for e in ('H6', 'H7', 'A6', 'A7'):
-            for q in range(6):
-                out.append(mk_case(INIT_I16, [f'L{p}1', e, f'S{q}'], False, 'hdraffine'))
-                for r in range(6):
-                    out.append(mk_case(INIT_I16, [f'L{p}0', e, f'S{q}', f'S{r}'], False, 'hdraffine'))
-                    out.append(mk_case(INIT_I16, [f'L{p}1', e, f'S{q}', 'H6' if e != 'H6' else 'H7', f'S{r}', 'B'], False,
-                                       'hdraffine'))
+    srcs = (0, 1, 3, 4, 6, 7, 8)       # NIfTI-1 single (plain, gz), pair, MGH, SPM2, NIfTI-2, compressed pair
+    for p in srcs:
+        own = 'H%d' % p                 # the image loaded from path p has affine id p
+        c = PCH[p]
+        for e in (HA, HB, AA, AB, own):
+            for q in range(NP):
+                out.append(mk_case(INIT_I16, [f'L{c}1', e, f'S{PCH[q]}'], False, 'hdraffine'))
+            for q in (0, 3, 4, 6, 7):
+                for r in (0, 3, 4, 7):
+                    out.append(mk_case(INIT_I16, [f'L{c}0', e, f'S{PCH[q]}', f'S{PCH[r]}'], False, 'hdraffine'))
+                    out.append(mk_case(INIT_I16, [f'L{c}1', e, f'S{PCH[q]}', HA if e != HA else HB, f'S{PCH[r]}', 'B'],
+                                       False, 'hdraffine'))
+        # both kinds of edit in a row, and an edit after the image API moved the affine
+        for q in (p, 0, 3, 7):
+            out.append(mk_case(INIT_I16, [f'L{c}1', AB, 'H%d' % OTHER_B, f'S{PCH[q]}', f'S{PCH[p]}'], False, 'hdraffine'))
+            out.append(mk_case(INIT_I16, [f'L{c}1', HA, HB, f'S{PCH[q]}', own, f'S{PCH[q]}'], False, 'hdraffine'))
+            out.append(mk_case(INIT_I16, [f'L{c}1', AA, HA, f'S{PCH[q]}', f'L{PCH[q]}1', HB, f'S{c}'], False, 'hdraffine'))
     return out
 
 
@@ -248,36 +383,47 @@ def exhaustive(init, first, alpha, n, stream):
 
 def rand_init(rng):
     init = []
-    for p in range(6):
+    for p in range(NP):
         if rng.random() < 0.08:
             init.append('-')
         else:
-            init.append(rng.choice(MGH_DTS if p >= 4 else DTS))
+            dt = rng.choice(_dts_for(p))
+            if p not in MGH_PATHS:
+                r = rng.random()
+                if r < 0.15:
+                    dt = '>' + dt
+                elif r < 0.25 and dt in ('u8', 'i16', 'i32'):
+                    dt = dt + 's'
+            init.append(dt)
     return init
 
 
 def rand_spell(rng):
-    return '' if rng.random() < 0.7 else '@%d' % rng.randrange(1, 7)
+    return '' if rng.random() < 0.7 else '@%d' % rng.randrange(1, 9)
+
+
+def rand_path(rng):
+    return PCH[rng.randrange(NP)]
 
 
 def rand_op(rng):
     r = rng.random()
     if r < 0.22:
-        return f'L{rng.randrange(6)}{rng.choice([1, 1, 0])}' + rand_spell(rng)
+        return f'L{rand_path(rng)}{rng.choice([1, 1, 2, 0])}' + rand_spell(rng)
     if r < 0.55:
-        return f'S{rng.randrange(6)}' + rand_spell(rng)
+        return f'S{rand_path(rng)}' + rand_spell(rng)
     if r < 0.68:
         return 'D' + rng.choice(DTS)
     if r < 0.78:
-        return 'F'
+        return rng.choice(['F', 'F', 'F4'])
     if r < 0.84:
         return 'U'
     if r < 0.89:
         return 'E%d' % rng.choice([1, 2, 3])
     if r < 0.92:
-        return 'A%d' % rng.choice([6, 7])
+        return 'A%d' % rng.choice([OTHER_A, OTHER_B, 3])
     if r < 0.97:
-        return 'H%d' % rng.choice([6, 7])
+        return 'H%d' % rng.choice([OTHER_A, OTHER_B, 0, 3, 7])
     return 'B'
 
 
@@ -287,19 +433,19 @@ def random_cases(rng, n, safe_bias=0.7):
     for _ in range(n):                                                   # child builds each template only once
         init = rng.choice(pool)
         ln = rng.randrange(4, 13)
-        ops = [f'L{rng.randrange(6)}{rng.choice([1, 1, 0])}']
+        ops = [f'L{rand_path(rng)}{rng.choice([1, 1, 2, 0])}']
         # most random histories avoid the open finding (dtype change followed by a save onto the source) so that
         # long histories stay informative; the rest are unconstrained
         avoid = rng.random() < safe_bias
-        src, dirty = int(ops[0][1]), False
+        src, dirty = ops[0][1], False
         while len(ops) < ln:
             o = rand_op(rng)
             if avoid:
                 if o[0] == 'D':
                     dirty = True
                 if o[0] == 'L':
-                    src, dirty = int(o[1]), False
-                if o[0] == 'S' and int(o[1]) == src and dirty:
+                    src, dirty = o[1], False
+                if o[0] == 'S' and o[1] == src and dirty:
                     continue
             ops.append(o)
         out.append(mk_case(init, ops, rng.random() < 0.1, 'random'))
@@ -309,19 +455,26 @@ def random_cases(rng, n, safe_bias=0.7):
 def cases(rng, tier):
     out = selfsave_cases() + spelling_cases() + hdraffine_cases()
     first_all = [f'L{p}{m}' for p in range(6) for m in (1, 0)]
+    first_q = [f'L{p}1' for p in range(6)] + ['L00', 'L30', 'L40']
     first_mm = [f'L{p}1' for p in range(6)]
+    first_x = ['L61', 'L71', 'L81', 'L91', 'La1', 'L60', 'L72', 'L01']
     if tier == 'quick':
-        out += exhaustive(INIT_MIXED, first_all, FULL_ALPHA, 2, 'exh3')
+        out += exhaustive(INIT_MIXED, first_q, FULL_ALPHA, 2, 'exh3')
         out += exhaustive(INIT_MIXED, [first_mm[0], first_mm[4]], SMALL_ALPHA, 3, 'exh4')
+        out += exhaustive(INIT_X, first_x, X_ALPHA, 2, 'exh3x')
         out += random_cases(rng, 1500)
     elif tier == 'thorough':
         out += exhaustive(INIT_MIXED, first_all, FULL_ALPHA, 2, 'exh3')
         out += exhaustive(INIT_I16, first_all, FULL_ALPHA, 2, 'exh3')
         out += exhaustive(INIT_MIXED, first_all, FULL_ALPHA, 3, 'exh4')
         out += exhaustive(INIT_MIXED, [first_mm[0], first_mm[4]], SMALL_ALPHA, 4, 'exh5')
+        out += exhaustive(INIT_X, first_x + ['L31', 'L80', 'L70'], X_ALPHA, 2, 'exh3x')
+        out += exhaustive(INIT_I16, first_x, X_ALPHA, 2, 'exh3x')
+        out += exhaustive(INIT_X, ['L61', 'L71', 'L81'], X_ALPHA, 3, 'exh4x')
         out += random_cases(rng, 20000)
     else:   # search
         out += exhaustive(INIT_MIXED, first_all, FULL_ALPHA, 2, 'exh3')
+        out += exhaustive(INIT_X, first_x, X_ALPHA, 2, 'exh3x')
         out += random_cases(rng, 6000, safe_bias=0.9)
     return out
 
@@ -463,29 +616,34 @@ def _layout_track(d, line):
     """From the OBSERVED tokens: index of the first op at which the live image's source file had been re-laid-out by
     a save onto it (None if never), and whether an fdata memmap alias could be cached at that moment."""
     toks = line.split(' ')
-    lay = {p: (dt, False) for p, dt in enumerate(d['init']) if dt != '-'}
+    lay = {}
+    for p, tok in enumerate(d['init']):
+        if tok != '-':
+            dt, be, sc = parse_init(tok)
+            lay[p] = (dt, sc, be or p in MGH_PATHS)
     src = src_lay = None
     mm = False
-    cached = False
+    cached = set()
     stale_at = alias = None
     for k, (op, tok) in enumerate(zip(d['ops'], toks)):
         if op[0] == 'L' and tok == 'L:ok':
-            src, mm = int(op[1]), op[2] == '1'
+            src, mm = pidx(op[1]), op[2] != '0'
             src_lay = lay.get(src)
-            cached = False
+            cached = set()
             stale_at = alias = None
-        elif op == 'F' and tok.startswith('F:') and tok != 'F:BAD':
-            cached = True
+        elif op.partition('@')[0] in ('F', 'F4') and tok.startswith('F:') and tok != 'F:BAD':
+            cached = {'f32' if op.startswith('F4') else 'f64'}     # one cache, of the dtype asked for last
         elif op == 'U':
-            cached = False
-        elif op[0] == 'S' and tok.startswith('S:') and tok.count('/') == 4:
-            q = int(op[1])
+            cached = set()
+        elif op[0] == 'S' and tok.startswith('S:') and tok.count('/') == 5:
+            q = pidx(op[1])
             dts = tok.split('/')[2]
-            newlay = (dts.rstrip('s'), dts.endswith('s'))
+            newlay = (dts.lstrip('>').rstrip('s'), dts.endswith('s'), dts.startswith('>'))
             lay[q] = newlay
             if q == src and newlay != src_lay and stale_at is None:
                 stale_at = k
-                alias = cached and mm and src in (0, 2, 3) and src_lay == ('f64', False)
+                alias = (mm and src not in COMPRESSED and src_lay is not None and not src_lay[1] and not src_lay[2] and
+                         src_lay[0] in cached)
     return stale_at, alias
 
 
@@ -496,10 +654,10 @@ def signature(case, what):
     if k in _RES and m:
         at, opname = int(m.group(1)), m.group(2)
         stale_at, alias = _layout_track(d, _RES[k][0])
-        reads_live = opname in ('F', 'B', 'final') or opname.startswith('S')
+        reads_live = opname in ('F', 'F4', 'B', 'final') or opname.startswith('S')
         wrote_wrong = 'written file' in what
         if stale_at is not None and at > stale_at and reads_live and not wrote_wrong:
-            if alias and opname in ('F', 'final'):
+            if alias and opname in ('F', 'F4', 'final'):
                 return SIG_FDATA
             return SIG_PROXY
         return 'history:' + opname[0] + (':crash' if 'child process' in what else '')
@@ -514,7 +672,7 @@ def shrink_candidates(case):
         cand.append(mk_case(d['init'], ops[:i] + ops[i + 1:], d['big'], case.stream))
     if d['big']:
         cand.append(mk_case(d['init'], ops, False, case.stream))
-    for p in range(6):
+    for p in range(NP):
         if d['init'][p] not in ('i16',):
             init = list(d['init'])
             init[p] = 'i16'
@@ -555,22 +713,37 @@ def _child(jobfile, outfile, workdir):
         arr = np.asarray(arr)
         if arr.shape != tuple(shape):
             return 'X'
-        for i in range(6):
+        for i in range(NP):
             if np.allclose(arr, data_for(i, shape), atol=3, rtol=0):
                 return str(i)
         return 'X'
 
     def aff_id(a):
-        for k in range(8):
+        for k in range(OTHER_B + 1):
             if a.shape == (4, 4) and np.allclose(a, aff_for(k), atol=1e-3, rtol=0):
                 return str(k)
         return 'X'
 
     DTN = {'uint8': 'u8', 'int16': 'i16', 'int32': 'i32', 'float32': 'f32', 'float64': 'f64'}
-    CLS = {'Nifti1Image': 'N1', 'Nifti1Pair': 'NP', 'MGHImage': 'MG'}
+    CLS = {'Nifti1Image': 'N1', 'Nifti1Pair': 'NP', 'MGHImage': 'MG', 'Spm2AnalyzeImage': 'S2', 'Nifti2Image': 'N2',
+           'Nifti2Pair': 'P2'}
+    MMAP = {'0': False, '1': True, '2': 'r'}
+    from nibabel.filebasedimages import ImageFileError
+    from nibabel.volumeutils import native_code
 
-    def dtname(dt):
-        return DTN.get(np.dtype(dt).newbyteorder('=').name, str(dt))
+    def dtname(img):
+        """header dtype, prefixed with '>' when the header is not in native byte order (MGH: always big-endian)"""
+        be = True if isinstance(img, nib.MGHImage) else img.header.endianness != native_code
+        dt = img.get_data_dtype()
+        return ('>' if be else '') + DTN.get(np.dtype(dt).newbyteorder('=').name, str(dt))
+
+    def xf_of(img):
+        """transform fields of a NIfTI header: codes and the affines sform / qform encode"""
+        if not isinstance(img, nib.Nifti1Pair):
+            return '-'
+        h = img.header
+        return 's%d.%sq%d.%s' % (int(h['sform_code']), aff_id(h.get_sform()), int(h['qform_code']),
+                                 aff_id(h.get_qform()))
 
     def tag_of(img):
         h = img.header
@@ -584,8 +757,8 @@ def _child(jobfile, outfile, workdir):
         arr = np.asanyarray(img.dataobj)
         sl, it = getattr(img.dataobj, 'slope', 1.0), getattr(img.dataobj, 'inter', 0.0)
         scaled = 's' if (sl, it) != (1.0, 0.0) else ''
-        tok = '/'.join([data_id(arr, shape), aff_id(img.affine), dtname(img.get_data_dtype()) + scaled, tag_of(img),
-                        CLS.get(type(img).__name__, type(img).__name__)])
+        tok = '/'.join([data_id(arr, shape), aff_id(img.affine), dtname(img) + scaled, tag_of(img),
+                        CLS.get(type(img).__name__, type(img).__name__), xf_of(img)])
         return tok, np.array(arr), np.array(img.affine)
 
     def fresh(path, shape):
@@ -610,13 +783,20 @@ def _child(jobfile, outfile, workdir):
         if key not in templates:
             shape = BIG if big else SMALL
             td = tempfile.mkdtemp(dir=workdir)
-            for p, dt in enumerate(init):
-                if dt == '-':
+            for p, tok in enumerate(init):
+                if tok == '-':
                     continue
-                arr = data_for(p, shape).astype(NP_DT[dt])
-                kl = nib.MGHImage if p >= 4 else (nib.Nifti1Pair if p == 3 else nib.Nifti1Image)
-                kl(arr, aff_for(p)).to_filename(os.path.join(td, PATHS[p]))
-            toks = [fresh(os.path.join(td, PATHS[p]), shape)[0] for p in range(6)]
+                dt, be, sc = parse_init(tok)
+                kl = getattr(nib, INIT_CLS.get(p, 'Nifti1Image'))
+                hdr = kl.header_class(endianness='>') if be else None
+                if sc:          # float data into an integer file: the array writer stores scale factors
+                    im0 = kl(data_for(p, shape).astype('float32') + 0.25, aff_for(p), hdr)
+                    im0.set_data_dtype(np.dtype(NP_DT[dt]))
+                else:
+                    im0 = kl(data_for(p, shape).astype(NP_DT[dt]), aff_for(p), hdr)
+                    im0.set_data_dtype(np.dtype(NP_DT[dt]))       # a given header brings its own (default) dtype
+                im0.to_filename(os.path.join(td, PATHS[p]))
+            toks = [fresh(os.path.join(td, PATHS[p]), shape)[0] for p in range(NP)]
             templates[key] = (td, toks)
         return templates[key]
 
@@ -643,17 +823,28 @@ def _child(jobfile, outfile, workdir):
         if any('@' in o for o in ops):
             os.mkdir('sub')
             for fn in os.listdir(td):
-                os.symlink(fn, 'ln_' + fn)
                 os.link(fn, 'hl_' + fn)
-            for p_, dt_ in enumerate(init):      # dangling links for absent files: a save through them creates the file
-                if dt_ == '-':
-                    for fn in ([PATHS[p_]] + (['a.hdr'] if p_ == 3 else [])):
-                        os.symlink(fn, 'ln_' + fn)
+            for p_ in range(NP):     # symbolic links for every name of every path; dangling ones (absent file, .mat of
+                for fn in side_names(p_):        # a pair that is not an SPM image yet) create the file when written through
+                    os.symlink(fn, 'ln_' + fn)
+
+        def hl_ok(p, saving):
+            """the hard-link spelling names the same FILES only if every file of the path has its link (a .mat file
+            that appears later has none)"""
+            names = side_names(p)
+            if any(os.path.lexists(n) and not os.path.lexists('hl_' + n) for n in names):
+                return False
+            if not os.path.lexists('hl_' + PATHS[p]):
+                return False
+            if saving and p in IMG_PATHS and isinstance(img, nib.Spm99AnalyzeImage) and \
+                    not os.path.lexists('hl_' + names[2]):
+                return False
+            return True
 
         def spelled(op):
             """file name to hand to nibabel for `L<p><m>[@k]` / `S<p>[@k]`"""
             body, _, k = op.partition('@')
-            p, k = int(body[1]), int(k or 0)
+            p, k = pidx(body[1]), int(k or 0)
             name = PATHS[p]
             if k == 1:
                 return name
@@ -663,11 +854,29 @@ def _child(jobfile, outfile, workdir):
                 return 'sub/../' + name
             if k == 4:
                 return 'ln_' + name
-            if k == 5 and os.path.lexists('hl_' + name):
+            if k == 5 and hl_ok(p, body[0] == 'S'):
                 return 'hl_' + name
-            if k == 6 and p == 3:
-                return 'a.hdr'
+            if k == 6 and p in IMG_PATHS:
+                return HDR_NAME[p]
             return P[p]
+
+        def do_save(op):
+            """nib.save, or one of the other entry points of the same save"""
+            k = int(op.partition('@')[2] or 0)
+            target = spelled(op)
+            if k == 7:
+                try:
+                    img.to_filename(target)
+                except ImageFileError:
+                    nib.save(img, target)
+            elif k == 8:
+                cur = img.get_filename()
+                if cur is not None and os.path.exists(cur) and os.path.exists(target) and os.path.samefile(cur, target):
+                    img.to_file_map()
+                else:
+                    nib.save(img, target)
+            else:
+                nib.save(img, target)
         img = None
         live = None            # snapshot of the data the live image had when loaded
         last_tok = {}          # path index -> content token right after the last save onto it
@@ -678,19 +887,19 @@ def _child(jobfile, outfile, workdir):
             tok, prob = None, None
             if c == 'L':
                 try:
-                    new = nib.load(spelled(op), mmap=(op[2] == '1'))
+                    new = nib.load(spelled(op), mmap=MMAP[op[2]])
                     snap = np.array(new.dataobj)
                     img, live = new, snap
                     tok = 'L:ok'
                 except Exception:
                     tok = 'L:ERR'
-                    if init[int(op[1])] != '-' and int(op[1]) not in last_tok:
+                    if init[pidx(op[1])] != '-' and pidx(op[1]) not in last_tok:
                         prob = 'load of an existing file raised'
             elif img is None:
                 tok = '-'
             elif c == 'F':
                 try:
-                    a = np.array(img.get_fdata())
+                    a = np.array(img.get_fdata(dtype=np.float32) if op.startswith('F4') else img.get_fdata())
                     di = data_id(a, shape)
                 except Exception as e:
                     a, di = None, 'X'
@@ -714,7 +923,7 @@ def _child(jobfile, outfile, workdir):
                 tok = 'ok'
             elif c == 'A':
                 A = aff_for(int(op[1:]))
-                if isinstance(img, nib.MGHImage):
+                if not hasattr(img, 'set_sform'):       # MGH, SPM2 Analyze: no transform API on the image
                     img.affine[:] = A
                 else:
                     img.set_sform(A, code=2)
@@ -728,11 +937,13 @@ def _child(jobfile, outfile, workdir):
                     tmp = nib.MGHImage(np.zeros(shape, np.float32), B)
                     for f in ('delta', 'Mdc', 'Pxyz_c'):
                         img.header[f] = tmp.header[f]
+                elif not isinstance(img, nib.Nifti1Pair):
+                    img.header['origin'][:3] = (kk % 7 + 1, 2, 3)     # SPM: the affine itself lives in the .mat file
                 elif kk % 2:
                     img.header.set_sform(None, code=0)
                     img.header.set_qform(B, code=2)
                 else:
-                    img.header.set_sform(B, code=2)
+                    img.header.set_sform(B, code=3)
                 tok = 'ok'
             elif c == 'D':
                 try:
@@ -754,13 +965,13 @@ def _child(jobfile, outfile, workdir):
                     tok, dead = c + ':BAD', True
                     prob = prob or 'the live image no longer yields its data'
                 elif c == 'S':
-                    q = int(op[1])
+                    q = pidx(op[1])
                     try:
-                        nib.save(img, spelled(op))
+                        do_save(op)
                         ftok, farr, faff = fresh(P[q], shape)
                         tok = 'S:' + ftok
                         last_tok[q] = ftok
-                        exact = not ftok.split('/')[2].endswith('s') if ftok.count('/') == 4 else True
+                        exact = not ftok.split('/')[2].endswith('s') if ftok.count('/') == 5 else True
                         if farr is None:
                             prob = 'written file cannot be loaded'
                         elif not close(farr, pre, 0.0 if exact and pre.dtype.kind != 'f' else 0.5):
@@ -815,20 +1026,20 @@ def _child(jobfile, outfile, workdir):
                         emit(i=i, prob='op#%d final: the live image yields data different from when it was loaded' % n)
                     fn = os.path.basename(img.get_filename() or '')
                     fn = fn[3:] if fn[:3] in ('ln_', 'hl_') else fn
-                    fi = str(PATHS.index(fn)) if fn in PATHS else '-'
+                    fi = PCH[PATHS.index(fn)] if fn in PATHS else '-'
                     emit(i=i, tok='live=' + '/'.join([CLS.get(type(img).__name__, type(img).__name__),
-                                                      dtname(img.get_data_dtype()), tag_of(img), aff_id(img.affine),
-                                                      'h' + aff_id(img.header.get_best_affine()), fi, d1, d2]))
+                                                      dtname(img), tag_of(img), aff_id(img.affine),
+                                                      'h' + aff_id(img.header.get_best_affine()), xf_of(img), fi, d1, d2]))
         if not dead:
             fin = []
-            for p in range(6):
-                # an untouched file (byte-identical to the template, pair: both files) decodes as it did initially
-                names = [PATHS[p]] + (['a.hdr'] if p == 3 else [])
+            for p in range(NP):
+                # an untouched file (byte-identical to the template, pair: all its files) decodes as it did initially
+                names = side_names(p)
                 if p not in last_tok and all(same_bytes(os.path.join(d, n), os.path.join(td, n)) for n in names):
                     fin.append(init_toks[p])
                 else:
                     fin.append(fresh(P[p], shape)[0])
-            for p in range(6):
+            for p in range(NP):
                 if p in last_tok:
                     if fin[p] != last_tok[p]:
                         emit(i=i, prob='op#%d fs: written file %s changed after its last save: %s -> %s' %
